@@ -400,9 +400,78 @@ impl HostContext<SimHost> for SimCtx {
 
 impl Host for SimHost {
     type Context = SimCtx;
-    type TapeAsset = SimAsset;
+    type TapeAsset = AnyAsset;
     type FrameBuffer = RecFb;
     type EmulationStopwatch = SimStopwatch;
     type IoExtender = SimExtender;
     type DebugInterface = SimDebug;
+}
+
+// ------------------------------------------------------------------------------------------
+// one tape-asset type for the host, wrapping every asset implementation under test
+
+pub enum AnyAsset {
+    Sim(SimAsset),
+    Buf(rustzx_core::host::BufferCursor<Vec<u8>>),
+    Gz(rustzx_utils::io::GzipAsset),
+    File(rustzx_utils::io::FileAsset),
+}
+
+impl LoadableAsset for AnyAsset {
+    fn read(&mut self, buf: &mut [u8]) -> Result<usize, IoError> {
+        match self {
+            AnyAsset::Sim(a) => a.read(buf),
+            AnyAsset::Buf(a) => a.read(buf),
+            AnyAsset::Gz(a) => a.read(buf),
+            AnyAsset::File(a) => a.read(buf),
+        }
+    }
+}
+
+impl SeekableAsset for AnyAsset {
+    fn seek(&mut self, pos: SeekFrom) -> Result<usize, IoError> {
+        match self {
+            AnyAsset::Sim(a) => a.seek(pos),
+            AnyAsset::Buf(a) => a.seek(pos),
+            AnyAsset::Gz(a) => a.seek(pos),
+            AnyAsset::File(a) => a.seek(pos),
+        }
+    }
+}
+
+thread_local! {
+    static TMP_COUNTER: std::cell::Cell<u64> = const { std::cell::Cell::new(0) };
+}
+
+/// Delivers `data` through the asset implementation selected by `kind`:
+/// 0 = BufferCursor, 1 = SimAsset (chunked, Ok(0) EOF), 2 = GzipAsset (data gzip-compressed here and
+/// inflated by the real adapter), 3 = FileAsset on a real temporary file, 4 = SimAsset 1-byte reads.
+pub fn make_asset(kind: i64, data: &[u8], chunk: usize) -> AnyAsset {
+    match kind {
+        1 => AnyAsset::Sim(SimAsset::new(data.to_vec(), AssetPlan { max_chunk: chunk.max(1), eof: EofStyle::Ok0, ..Default::default() }).0),
+        4 => AnyAsset::Sim(SimAsset::new(data.to_vec(), AssetPlan { max_chunk: 1, eof: EofStyle::Err, ..Default::default() }).0),
+        2 => {
+            use std::io::Write;
+            let mut enc = flate2::write::GzEncoder::new(Vec::new(), flate2::Compression::fast());
+            enc.write_all(data).expect("gzip encode");
+            let gz = enc.finish().expect("gzip finish");
+            AnyAsset::Gz(rustzx_utils::io::GzipAsset::new(std::io::Cursor::new(gz)).expect("gzip asset"))
+        }
+        3 => {
+            let root = std::env::var("VERIF_ROOT").unwrap_or_else(|_| "/verif".into());
+            let dir = format!("{}/sim/target/tmp", root);
+            let _ = std::fs::create_dir_all(&dir);
+            let n = TMP_COUNTER.with(|c| {
+                c.set(c.get() + 1);
+                c.get()
+            });
+            let path = format!("{}/asset-{}-{:?}-{}.bin", dir, std::process::id(), std::thread::current().id(), n);
+            std::fs::write(&path, data).expect("write temp asset");
+            let f = std::fs::File::open(&path).expect("open temp asset");
+            // unlink right away: the open handle keeps the data alive, nothing is left behind
+            let _ = std::fs::remove_file(&path);
+            AnyAsset::File(rustzx_utils::io::FileAsset::from(f))
+        }
+        _ => AnyAsset::Buf(rustzx_core::host::BufferCursor::new(data.to_vec())),
+    }
 }
